@@ -22,11 +22,11 @@ def run(prop, tier, seed):
     t = TIERS[tier]
     c = common.Check(prop, tier, seed, "model_checking")
     cfg = os.path.join(c.work, "MC_Checksum.cfg")
-    with open("/verif/spec/mc/MC_Checksum.cfg") as f:
+    with open(common.VERIF + "/spec/mc/MC_Checksum.cfg") as f:
         text = f.read().replace("CONSTANT N = 10", "CONSTANT N = %d" % t["N"]).replace("CONSTANT K = 9", "CONSTANT K = %d" % t["K"])
     with open(cfg, "w") as f:
         f.write(text)
-    r = tlc.run("/verif/spec/mc/MC_Checksum.tla", cfg, os.path.join(c.work, "tlc"), workers=1, timeout=1200)
+    r = tlc.run(common.VERIF + "/spec/mc/MC_Checksum.tla", cfg, os.path.join(c.work, "tlc"), workers=1, timeout=1200)
     if r.violated:
         raise common.ToolError("Checksum.tla: %s violated in the model - the specification is wrong" % r.violated)
     files, edges = [], []
@@ -41,7 +41,7 @@ def run(prop, tier, seed):
     trace = os.path.join(c.work, "trace.ndjson")
     out = json.loads(common.run_bin("cksum", [gpath, trace, seed, t["nrand"], t["big"]]))
     # TLC judges every recorded value
-    tr = tlc.run("/verif/spec/trace/ChecksumTrace.tla", "/verif/spec/trace/ChecksumTrace.cfg", os.path.join(c.work, "tlc-trace"),
+    tr = tlc.run(common.VERIF + "/spec/trace/ChecksumTrace.tla", common.VERIF + "/spec/trace/ChecksumTrace.cfg", os.path.join(c.work, "tlc-trace"),
                  workers=1, timeout=1800, env={"TRACE": trace}, jvm=["-Xss1g"])
     bad, consumed = [], None
     for tag, v in tlc.tagged(tr.text, ("BAD", "CONSUMED")):
@@ -96,7 +96,7 @@ def replay(prop, path, seed):
         json.dump({"files": [{"n": n, "bytes": rec["bytes"], "sum": rp["expected"]}], "edges": edges}, f)
     trace = os.path.join(work, "trace.ndjson")
     common.run_bin("cksum", [gpath, trace, seed, 0, 0])
-    tr = tlc.run("/verif/spec/trace/ChecksumTrace.tla", "/verif/spec/trace/ChecksumTrace.cfg", os.path.join(work, "tlc"),
+    tr = tlc.run(common.VERIF + "/spec/trace/ChecksumTrace.tla", common.VERIF + "/spec/trace/ChecksumTrace.cfg", os.path.join(work, "tlc"),
                  workers=1, env={"TRACE": trace}, jvm=["-Xss1g"])
     recs = [json.loads(l) for l in open(trace)]
     bad = [v for tag, v in tlc.tagged(tr.text, ("BAD",)) if recs[v[0] - 1]["bytes"] == rec["bytes"]]
